@@ -33,5 +33,9 @@ def setResult (s : CSt) (r : Option Fut) : CSt :=
   match r with
   | some f => { s with fut := f }
   | none => s
+/-- `len(t) == 2 and t.isascii() and t.isdigit()` -/
+def twoDigits (t : Bytes) : Bool := (statusOf t).isSome
+/-- `int(t)` of two ASCII digits -/
+def intOf (t : Bytes) : Nat := (statusOf t).getD 0
 
 end Cl
